@@ -154,6 +154,17 @@ CHECKS = [
              'Peps2Layers / DoublePepsTensor / Lattice / EnvCTM / EnvBP / EnvBoundaryMPS / EnvCTM_c4v on 14 geometries of every lattice type.',
      'note': 'trusted: vlib/model.py and public observers; HDF5 through an in-memory h5py file (core driver); numpy.save only for level >= 1 '
              '(level 0 keeps the config module by design); torch backend not available'},
+    {'id': 'C18',
+     'technique': 'Hypothesis-generated linear maps (random zero-charge tensors acting on symmetric vectors), start vectors and solver options; results compared with scipy.linalg.expm / numpy eigensolvers / dense residuals on the sector matrix of the map',
+     'text': 'Maps f(x) = M.x (+ shift) for random (non-)Hermitian M on rank 1-3 vectors of every symmetry and charge (sector dimension up to ~100), '
+             'random / eigenvector / two-eigenvector / single-block / zero start vectors. expmv: |w - expm(tF)v| <= (200 tol + 1e-11) x amplification for '
+             'real, imaginary and complex t with |t| ||F|| from 0 to 40, tol 1e-5..1e-12, ncv 1..40, both hermitian flags, normalize on/off, info fields '
+             '(krylov_steps == calls of f). eigs: exact residual / selection / ordering once ncv reaches the reachable dimension, Rayleigh identity, '
+             'spectral bounds, interlacing and variational bound otherwise (Hermitian). lin_solver: reported == true residual, <= initial residual, '
+             'solved when the Krylov space is exhausted. Results stay in the sector.',
+     'note': 'trusted: dense matrix of the map from M.to_numpy(); exactness clauses of eigs are applied only while a NumPy simulation of the documented '
+             'algorithm keeps the Krylov basis orthonormal to 1e-10 (classical Gram-Schmidt loses orthogonality like eps*cond^2); expmv cases with '
+             'amplification > 1e4 are skipped; svds is outside the property'},
     {'id': 'C19',
      'technique': 'exhaustive enumeration of the group law against an independent table + Hypothesis search over Leg arguments',
      'text': 'Every fuse()/add_charges() row in the stated charge box (complete for Z2/Z3 factors, |t|<=B for U(1)) for '
